@@ -234,3 +234,42 @@ func H_C20_failed_call_leaves_no_trace() {
 		}
 	}
 }
+
+// Memory, as the opcodes use it: the interpreter resizes memory to calcMemSize(offset, size) before
+// an operation - which is 0 for a zero-length region whatever the offset (huge offsets included) - so
+// every accessor must be total, and a no-op, for size 0 at ANY offset and with ANY value handed in
+// (CALL-family opcodes pass the callee's whole return data with the caller-chosen return size), and
+// must stay inside the store for regions the resize covered.
+//verif:opt unwind=40 budget_s=600 split=6
+func H_C20_memory_accessors_total_for_resized_regions() {
+	m := NewMemory()
+	have := uint64(verifCase(2) * 4) // current memory: empty or 4 bytes (the accessors do not care about word alignment;
+	// regions inside the store are enumerated by the engine, so the store is kept small)
+	m.Resize(have)
+	for i := range m.store {
+		m.store[i] = 0xEE
+	}
+	offset, size := verifNondetUint64(), verifNondetUint64()
+	// what the interpreter guarantees: the region was covered by the resize, or is empty
+	verifAssume(size == 0 || (offset <= have && size <= have-offset))
+	value := verifNondetBytes(verifCase(4)) // whatever the callee returned: 0..3 bytes
+	before := append([]byte{}, m.store...)
+	switch verifCase(3) {
+	case 0:
+		m.Set(offset, size, value)
+		if size == 0 {
+			verifAssert(string(m.store) == string(before), "zero-size-set-is-a-no-op-at-any-offset")
+		} else {
+			verifAssert(len(m.store) == len(before), "set-does-not-grow-memory")
+		}
+	case 1:
+		verifAssume(offset < 1<<62 && size < 1<<62)
+		g := m.Get(int64(offset), int64(size))
+		verifAssert(uint64(len(g)) == size || (size != 0 && g == nil), "get-returns-the-region")
+	case 2:
+		verifAssume(offset < 1<<62 && size < 1<<62)
+		g := m.GetPtr(int64(offset), int64(size))
+		verifAssert(uint64(len(g)) == size || (size != 0 && g == nil), "getptr-returns-the-region")
+	}
+	verifReach("memory-accessed")
+}
